@@ -310,7 +310,7 @@ OBLIGATIONS = [
         weight=4,
         timeout={"quick": 1200, "thorough": 3600},
     ),
-    Ob("O16.2b", _xh("pairing_sync", "0 <= expected <= 3 and 0 <= got <= 3", "0 <= expected and 0 <= got", "sync client rejects a response with another id", "O16.2b", 60, 120), "response pairing in SocketSyncRPCClient._recv_response"),
+    Ob("O16.2b", _xh("pairing_sync", "0 <= expected <= 3 and 0 <= got <= 3", "0 <= expected <= 6 and 0 <= got <= 6", "sync client rejects a response with another id", "O16.2b", 60, 600), "response pairing in SocketSyncRPCClient._recv_response"),
     Ob("O16.2c", _xh("send_loop_pairing", "0 <= i0 <= 3 and 0 <= i1 <= 3 and 0 <= enc_fail <= 2", "0 <= i0 and 0 <= i1 and 0 <= enc_fail <= 2", "server replies once per completed call with its own id", "O16.2c", 120, 300), "reply pairing in RPCServerConnection._send_loop", weight=2),
     Ob("O16.1c", _xh("stream_recv", "id0 >= 0 and s0 >= 0 and avail >= 0", "id0 >= 0 and s0 >= 0 and avail >= 0", "asyncio reader: a peer vanishing at any byte offset yields None, never an exception", "O16.1c", 120, 300), "_recv_stream_message under a disconnect at any offset (unbounded sizes)", weight=2),
     Ob("O16.3b", _xh("capture_failure", "0 <= kind < 8", "0 <= kind < 8", "_call_and_capture_failure turns every way a procedure can end into a reply", "O16.3b", 120, 300), "every started call is answered (_call_and_capture_failure never raises)", weight=2),
